@@ -1,5 +1,6 @@
 import LyModel.Compile.Model
 import LyModel.Compile.Expand
+import LyModel.Compile.LemmasTree
 import LyModel.Iff.LemmasRange
 import LyModel.Props.C11Range
 /-! C11 — expansion core of the schema compiler (model: `LyModel/Compile/Model.lean`, RFC meaning of `uses`:
@@ -229,5 +230,132 @@ theorem compile_eq_expand_fails : ¬ CompileEqExpand tcfg := by
     simp only [he] at h2
     rw [h f390 _ s' he, h1] at h2
     exact absurd h2 (by decide)
+
+/-- module names and node names of the first three levels (for evaluated examples) -/
+def names (r : Except Err (List (String × List CNode))) : List String :=
+  match r with
+  | .ok ms => (ms.map fun (m, cs) => m :: (cs.map fun c => c.d.name) ++ ((cs.map (·.children)).flatten.map fun c => c.d.name) ++
+      (((cs.map (·.children)).flatten.map (·.children)).flatten.map fun c => c.d.name)).flatten
+  | .error _ => ["error"]
+
+
+/-! ## whole-tree invariants of every compiled tree -/
+
+/-- **config_inheritance.**  For EVERY module set of the DSL, every load order and every state of the repairs: in every
+compiled tree a config-false node has no config-true child, at every level (`Tree cfgLocal`: the law holds at the node
+and, recursively, at all its children) — through uses, refines, deviations, uses-augments, chained top-level augments
+(children of an augment obey the config of the augment's TARGET) and the removal of disabled nodes. -/
+theorem config_inheritance (cfg : Cfg) (sch : Schema) (order : List String) (ms : List (String × List CNode))
+    (h : compileSet cfg sch order = .ok ms) : ∀ x ∈ ms, TreeL cfgLocal x.2 := by
+  intro x hx
+  obtain ⟨m, a, d, top, hraw, hx2⟩ := compileSet_mem cfg sch order ms h x hx
+  rw [hx2]
+  exact ((prune_cfg cfg.fixF392 1000).2 top (goodL_tree_cfg top (compileModuleRaw_good _ _ m a d top hraw))).1
+
+/-- non-vacuity: the chained / sibling augment witness compiles (two modules, four augments), so the invariant speaks
+about real trees; the config-false case is exercised by the next example -/
+example : isOk (compileSet tcfg f81 ["cwe", "cwd"]) = true := by decide +kernel
+example : names (compileSet tcfg
+      { mods := [{ name := "m", data := [.node { kind := .container, name := "st", config := some false } [N .leaf "l"]] }] } ["m"]) =
+    ["m", "st", "l"] ∧
+    isOk (compileSet tcfg
+      { mods := [{ name := "m", data := [.node { kind := .container, name := "st", config := some false }
+        [.node { kind := .leaf, name := "l", config := some true } []]] }] } ["m"]) = false := by
+  constructor <;> decide +kernel
+
+/-- **mandatory_parents, before the disabled nodes are removed** (every state of the repairs): in the tree `lys_compile`
+builds, a container is flagged mandatory iff it is a non-presence container one of whose children is flagged. -/
+theorem mandatory_parents_raw (env : Env) (fuel : Nat) (m : Module) (a d : List String) (top : List CNode)
+    (h : compileModuleRaw env fuel m a d = .ok top) : TreeL mandLocal top :=
+  goodL_tree_mand top (compileModuleRaw_good env fuel m a d top h)
+
+/-- **mandatory_parents_fixed.**  With fixes/F392.diff in the tree the law holds for the FINAL trees (after the removal of
+the nodes disabled by if-feature / deviate not-supported), for every module set and load order. -/
+theorem mandatory_parents_fixed (cfg : Cfg) (hfix : cfg.fixF392 = true) (sch : Schema) (order : List String)
+    (ms : List (String × List CNode)) (h : compileSet cfg sch order = .ok ms) : ∀ x ∈ ms, TreeL mandLocal x.2 := by
+  intro x hx
+  obtain ⟨m, a, d, top, hraw, hx2⟩ := compileSet_mem cfg sch order ms h x hx
+  rw [hx2, hfix]
+  exact ((prune_mand 1000).2 top (mandatory_parents_raw _ _ m a d top hraw)).1
+
+/-- the witness of finding F392: the only mandatory child of a container is disabled by its if-feature -/
+def f392 : Schema :=
+  { mods := [{ name := "cwi", data := [.node { kind := .container, name := "c" }
+      [.node { kind := .leaf, name := "x", mand := some true, iffs := ["f1"] } [], N .leaf "y"]] }] }
+
+/-- (is container, mandatory, presence, some child mandatory) of the first top-level node -/
+def topFlags (r : Except Err (List (String × List CNode))) : Bool × Bool × Bool × Bool :=
+  match r with
+  | .ok ((_, c :: _) :: _) => (c.d.kind == .container, c.d.mand, c.d.presence, c.children.any (·.d.mand))
+  | _ => (false, false, false, false)
+
+/-- **mandatory_parents is false on the unrepaired tree** (finding F392): container `c` keeps LYS_MAND_TRUE although its
+only remaining child `y` is not mandatory.  The check evaluates the same law on libyang's own compiled tree. -/
+theorem mandatory_parents_fails :
+    ¬ (∀ (sch : Schema) (order : List String) (ms : List (String × List CNode)),
+        compileSet tcfg sch order = .ok ms → ∀ x ∈ ms, TreeL mandLocal x.2) := by
+  intro h
+  have hflags : topFlags (compileSet tcfg f392 ["cwi"]) = (true, true, false, false) := by decide +kernel
+  cases hr : compileSet tcfg f392 ["cwi"] with
+  | error e => rw [hr] at hflags; simp [topFlags] at hflags
+  | ok ms =>
+    rw [hr] at hflags
+    match ms, hr, hflags with
+    | (n, (.mk d kids) :: rest) :: ms', hr, hflags =>
+      have ht := h f392 ["cwi"] _ hr (n, (.mk d kids) :: rest) List.mem_cons_self
+      simp only [TreeL, Tree, mandLocal] at ht
+      simp only [topFlags, CNode.children, Prod.mk.injEq, beq_iff_eq] at hflags
+      obtain ⟨hk, hm, hp, ha⟩ := hflags
+      have := ht.1.1 hk
+      simp only [CNode.d] at hk hm hp
+      rw [hm, hp, ha] at this
+      exact absurd this (by decide)
+    | [], hr, hflags => simp [topFlags] at hflags
+    | (n, []) :: ms', hr, hflags => simp [topFlags] at hflags
+
+/-- with the repair the flag of the witness is cleared -/
+example : topFlags (compileSet { tcfg with fixF392 := true } f392 ["cwi"]) = (true, false, false, false) := by decide +kernel
+
+/-- with fixes/F390.diff the witness of `compile_eq_expand_fails` compiles, and to the same node list as its expansion -/
+theorem compile_eq_expand_witness_fixed :
+    names (compileSet { tcfg with fixF390 := true } f390 ["cya", "cyb"]) = ["cya", "n10", "c", "x", "c", "cyb"] ∧
+    (match expand { tcfg with fixF390 := true } f390 ["cya", "cyb"] with
+      | .ok s' => names (compileSet { tcfg with fixF390 := true } s' ["cya", "cyb"]) | .error _ => []) =
+      ["cya", "n10", "c", "x", "c", "cyb"] := by
+  constructor <;> decide +kernel
+
+/-! ## a refine is local -/
+
+/-- **uses_refine_local.**  `lys_compile_node_deviations_refines` on a node with schema path `path`: the pending refines
+whose context node + nodeid is NOT this path are left alone, in their order (so they can only ever change another node),
+and if no pending refine has this path the parsed statements of the node are returned unchanged.  Together with
+`takeRefines` being the only place of `compileNode` where a refine is consumed: a refine changes exactly the node it names. -/
+theorem uses_refine_local (cfg : Cfg) (path : Path) (cur : String) (rfns : List URfn) (p p' : Props) (rest : List URfn)
+    (h : takeRefines cfg path cur rfns p = .ok (rest, p')) :
+    rest = rfns.filter (fun r => !(r.ctx ++ r.nodeid.map (fun n => (cur, n)) == path)) ∧
+    ((∀ r ∈ rfns, (r.ctx ++ r.nodeid.map (fun n => (cur, n)) == path) = false) → p' = p ∧ rest = rfns) := by
+  unfold takeRefines at h
+  simp only [bind, Except.bind, pure, Except.pure] at h
+  split at h
+  · cases h
+  · rename_i q hq
+    simp only [Except.ok.injEq, Prod.mk.injEq] at h
+    obtain ⟨h1, h2⟩ := h
+    refine ⟨h1.symm, fun hall => ?_⟩
+    have hnone : rfns.filter (fun r => r.ctx ++ r.nodeid.map (fun n => (cur, n)) == path) = [] := by
+      rw [List.filter_eq_nil_iff]; intro r hr; simp [hall r hr]
+    rw [hnone] at hq
+    have hq' : q = p := by
+      cases hcfg : cfg.rfnReverse <;> simp [hcfg, pure, Except.pure] at hq <;> exact hq.symm
+    refine ⟨by rw [← h2, hq'], ?_⟩
+    rw [← h1]
+    rw [List.filter_eq_self]
+    intro r hr; simp [hall r hr]
+
+example : (takeRefines tcfg [("m", "c"), ("m", "l")] "m"
+      [{ ctx := [("m", "c")], nodeid := ["l"], rfns := [{ path := ["l"], config := some false }], usesId := 0 },
+       { ctx := [("m", "c")], nodeid := ["k"], rfns := [{ path := ["k"], config := some false }], usesId := 0 }]
+      { kind := .leaf, name := "l" }).toOption.map (fun r => (r.1.map (·.nodeid), r.2.config)) = some ([["k"]], some false) := by
+  decide +kernel
 
 end LyModel.Props.C11
